@@ -561,6 +561,8 @@ def _enumerate_meta(args):
                         r0 = v0 + off                      # the stored value that denotes v0
                         try:
                             mm.set_raw(name, r0)
+                            if via == "meta-built" and (v0 - a) % 97 == 3:
+                                api.Synth(mm).read()            # (a save in between: writing the module does not change it)
                             v = val(getattr(mm, name))
                         except Exception:
                             v = -777777
